@@ -454,7 +454,12 @@ func EDNSOption(t *rapid.T, o *Opts) wm.Option {
 	case 15:
 		d = Bytes(t, 2+Len(t, 0, 40), false)
 	case 18:
-		d = wm.EncodeName(o.name(t))
+		n := o.name(t)
+		if rapid.IntRange(0, 3).Draw(t, "agentlong") == 0 {
+			// the agent domain is a full domain name: up to 255 octets
+			n = NameOfWireLen(t, rapid.IntRange(250, 255).Draw(t, "agentlen"), NameOpts{Plain: o.Plain})
+		}
+		d = wm.EncodeName(n)
 	case 19:
 		d = Bytes(t, 2+Len(t, 0, 20), false)
 	default:
